@@ -388,6 +388,7 @@ func (c *conn) closeSubscriptions() {
 	for id, runner := range c.subscriptions {
 		runner.Stop()
 		delete(c.subscriptions, id)
+		c.subscriptionLogger.Unsubscribe(c.ctx, id)
 	}
 }
 
